@@ -1203,6 +1203,8 @@ def deep_shard(arg):
         res.count('deep-events-out', len(real['out']))
     compare([conc], [real], res, labels=[case])
     res.streams = dict(('deep-' + k, v) for k, v in res.streams.items())
+    for d in res.disagreements:
+        d['stream'] = 'deep-' + d['stream']
     return res
 
 
